@@ -91,6 +91,12 @@ Theorem C18_sentinel_count_wraps_refuted :
 Proof. exact sentinel_count_wraps. Qed.
 Print Assumptions C18_sentinel_count_wraps_refuted.
 
+(* normalisation is idempotent: what the implant decoded re-encodes to the same description *)
+Theorem C18_norm_idempotent :
+  forall o, norm_filter_ptr (norm_filter_ptr o) = norm_filter_ptr o.
+Proof. exact norm_filter_ptr_idem. Qed.
+Print Assumptions C18_norm_idempotent.
+
 (* non-vacuity: a process description with arguments, a non-empty filter and a negative
    timeout, and a launcher description with one path of each kind, are well-formed and make
    the round trip (computed) *)
